@@ -400,10 +400,22 @@ def base_vtype(vtype):
     return 'ranked' if vtype == 'ranked_noshared' else vtype
 
 
-def run_family(fam, prof, n, names):
+# One long-lived evaluator object per family, used for about half of the calls (decided by the profile): state that an evaluator
+# (or a component it holds) keeps between calls then shows up as an outcome that depends on earlier, unrelated elections.
+_SHARED = {}
+
+
+def run_family(fam, prof, n, names, shared=None):
     """evaluate the real votelib; returns canonical protocol observable"""
     votes = build(base_vtype(fam.vtype), prof, names)
-    ev = fam.make()
+    if shared is None:
+        shared = (sum(len(str(b)) + len(str(w)) for b, w in prof) + n) % 2 == 0
+    if shared and fam.kind != 'rng':
+        if fam.name not in _SHARED:
+            _SHARED[fam.name] = fam.make()
+        ev = _SHARED[fam.name]
+    else:
+        ev = fam.make()
 
     def go():
         res = ev.evaluate(votes, n) if fam.n_seats else ev.evaluate(votes)
